@@ -4,7 +4,7 @@ the register in r/m (or the base of a memory operand) the one extended by VEX.B.
 Both emitters (output_3byte_vex_opcode for the prefix, orc_vex_insn_output_modrm for the ModRM byte) choose their operands by
 instruction type, number of sources and operand form.  For every combination the call that each of them reaches is found by
 walking its CFG under that configuration (exprval.reachable_under) and the operand expressions are compared by role."""
-from facts import AnalysisBroken, access_path, strip_casts, unparse
+from facts import AnalysisBroken, access_path, init_rows, strip_casts, unparse
 from exprval import reachable_under
 from x86enc import MODRM_ROLES, switch_arms, type_switches
 
@@ -24,9 +24,36 @@ def check_vex_rxb_roles(db, rep, rule):
     tnames = {v: k[len("ORC_X86_INSN_TYPE_"):] for k, v in tu.enums.items() if k.startswith("ORC_X86_INSN_TYPE_")}
     xt = {db.enum(n): n[len("ORC_X86_RM_"):] for n in ("ORC_X86_RM_REG", "ORC_X86_RM_MEMOFFSET", "ORC_X86_RM_MEMINDEX")}
     mcalls = [c for c in fm.calls() if c.name in MODRM_ROLES]
+    fl = tu.fn["orc_x86_insn_output_modrm"]
+    rep.saw(fl)
+    lcalls = [c for c in fl.calls() if c.name in MODRM_ROLES]
     rcalls = [c for c in f3.calls("orc_vex_get_rex")]
     if len(mcalls) < 9 or len(rcalls) < 8:
         raise AnalysisBroken("VEX emitters: %d ModRM calls, %d orc_vex_get_rex calls" % (len(mcalls), len(rcalls)))
+    # shapes that some emit site can produce: (row type, number of register sources, operand form)
+    rows = init_rows(tu.global_("orc_x86_opcodes"))
+    FORM = {"orc_vex_emit_cpuinsn_size": ("ORC_X86_RM_REG", 3, 4), "orc_vex_emit_cpuinsn_imm": ("ORC_X86_RM_REG", 3, 4),
+            "orc_vex_emit_cpuinsn_load_memoffset": ("ORC_X86_RM_MEMOFFSET", 5, 6), "orc_vex_emit_cpuinsn_store_memoffset": ("ORC_X86_RM_MEMOFFSET", None, None),
+            "orc_vex_emit_cpuinsn_load_memindex": ("ORC_X86_RM_MEMINDEX", None, None), "orc_vex_emit_cpuinsn_store_memindex": ("ORC_X86_RM_MEMINDEX", None, None)}
+    producible = {}
+    for g in db.all_functions():
+        if not g.relfile.startswith("orc/"):
+            continue
+        for c in g.calls():
+            if c.name not in FORM:
+                continue
+            a = c.args()
+            rv = strip_casts(a[1]).v
+            if rv is None or not (0 <= rv < len(rows)):
+                continue
+            T = rows[rv]["type"] if isinstance(rows[rv].get("type"), int) else db.enum(rows[rv]["type"][1]) if isinstance(rows[rv].get("type"), tuple) else None
+            form, _, s1 = FORM[c.name]
+            nsrc = 1
+            if s1 is not None and len(a) > s1 and strip_casts(a[s1]).v != 0:
+                nsrc = 2
+            producible.setdefault((T, nsrc, db.enum(form)), []).append((g, c))
+    if len(producible) < 10:
+        raise AnalysisBroken("only %d (type, sources, form) shapes found at the VEX emit sites" % len(producible))
     LO = 64
     n = 0
     for T in sorted(enc):
@@ -35,9 +62,14 @@ def check_vex_rxb_roles(db, rep, rule):
                 env = {"xinsn->src[0]": LO, "xinsn->src[1]": LO if nsrc == 2 else 0, "xinsn->dest": LO, "xinsn->type": X,
                        "xinsn->opcode->type": T, "xinsn->opcode->flags": 0, "p->is_64bit": 1, "xinsn->opcode->prefix": 1, "xinsn->prefix": 0}
                 m = [c for c in mcalls if reachable_under(fm, env, lambda e, c=c: e is c)]
+                if not m and reachable_under(fm, env, lambda e: e.k == "CallExpr" and e.name == "orc_x86_insn_output_modrm"):
+                    # this shape is delegated to the legacy ModRM emitter
+                    m = [c for c in lcalls if reachable_under(fl, env, lambda e, c=c: e is c)]
                 r = [c for c in rcalls if reachable_under(f3, env, lambda e, c=c: e is c)]
                 if not m:
                     continue                        # no ModRM byte for this shape (or the emitter refuses it)
+                if (T, nsrc, X) not in producible:
+                    continue                        # no emit site builds an instruction of this shape
                 where_ = "orc/orcx86insn.c::output_3byte_vex_opcode"
                 inst = "%s/%dsrc/%s" % (tnames.get(T, T), nsrc, xt[X])
                 n += 1
@@ -60,8 +92,45 @@ def check_vex_rxb_roles(db, rep, rule):
                         probs.append("ModRM.reg is the opcode extension but VEX.R is computed from `%s`" % unparse(R))
                 elif unparse(R) != unparse(rg):
                     probs.append("ModRM.reg is `%s` but VEX.R is computed from `%s`" % (unparse(rg), unparse(R)))
+                if probs:
+                    low = _all_sites_low(db, producible[(T, nsrc, X)], FORM)
+                    if low:
+                        rep.ok(rule, where_, inst, "latent role mismatch (%s), not reachable: every emit site of this shape passes %s, registers below 8" % ("; ".join(probs), low))
+                        continue
                 rep.check(not probs, rule, where_, inst,
                           "VEX.R <- %s, VEX.B <- %s, as in the ModRM byte" % (unparse(R), unparse(B)),
                           "%s: %s -- with a register 8..15 the prefix extends the wrong field and the machine code names other registers than the listing" % (inst, "; ".join(probs)),
                           line=r[0].line)
     return n
+
+
+REGARGS = {"orc_vex_emit_cpuinsn_size": (3, 4, 5), "orc_vex_emit_cpuinsn_imm": (3, 4, 5), "orc_vex_emit_cpuinsn_load_memoffset": (5, 6, 7),
+           "orc_vex_emit_cpuinsn_store_memoffset": (5, 6), "orc_vex_emit_cpuinsn_load_memindex": (5, 6, 8), "orc_vex_emit_cpuinsn_store_memindex": (4, 6, 7)}
+
+
+def _all_sites_low(db, sites, FORM):
+    """description of the register arguments if every emit site passes only registers whose number has bit 3 clear (a constant,
+    or compiler->exec_reg when every x86 assignment to it is such a constant), else None."""
+    exec_vals = []
+    for f in db.tu("orcprogram-x86").main_functions():
+        for x in f.walk():
+            if x.k == "BinaryOperator" and x.op == "=" and (access_path(x.c[0]) or "").endswith("->exec_reg"):
+                exec_vals.append(strip_casts(x.c[1]).v)
+    exec_low = bool(exec_vals) and all(v is not None and not (v & 8) for v in exec_vals)
+    seen = set()
+    for g, c in sites:
+        a = c.args()
+        regs = [a[i] for i in REGARGS[c.name] if i < len(a)]
+        for r in regs:
+            e = strip_casts(r)
+            if e is None:
+                return None
+            if e.v is not None:
+                if e.v >= 32 and (e.v & 8):                     # a register number (>= ORC_GP_REG_BASE) with bit 3 set
+                    return None
+                continue
+            if (access_path(e) or "").endswith("->exec_reg") and exec_low:
+                seen.add("compiler->exec_reg")
+                continue
+            return None
+    return " / ".join(sorted(seen)) or "constants"
